@@ -1169,6 +1169,8 @@ class World:
             self.probe("query_after_mutation_after_warm")
         if not pr.model:
             self.probe("query_on_empty_path")
+        elif all(self._is_degenerate(self.segs[x]) for x in pr.model):
+            self.probe("query_on_path_of_total_length_zero")
         if q == "length":
             oc = self.impl(lambda: p.length())
             self._judge_path_len(idx, q, pr, oc, *DEFAULT_TOL, tolerant)
@@ -1337,6 +1339,16 @@ class World:
             pr.warm = True
         entry["out"] = self._render(oc) if oc[0] != "i" else {"interrupted": True}
         return "ok"
+
+    @staticmethod
+    def _is_degenerate(rec):
+        if rec.kind == "A":
+            return False
+        try:
+            b = rec.obj.bpoints()
+            return all(z == b[0] for z in b)
+        except Exception:
+            return False
 
     def _seg_atol(self, rec):
         """absolute slack for length/coordinate-valued answers of a rounding-tainted object:
@@ -1534,6 +1546,14 @@ class Gen:
                             "large_arc": r.random() < 0.5, "sweep": r.random() < 0.5, "end": zc(b)}}
         n = {"L": 2, "Q": 3, "C": 4}[k]
         pts = [a] + [self.pt(r) for _ in range(n - 1)]
+        x = r.random()
+        if x < 0.04:
+            pts = [a] * n                                   # a zero-length segment
+        elif x < 0.08 and n > 2:
+            b = pts[-1]
+            pts = [a] + [a + (b - a) * (j / (n - 1.0)) for j in range(1, n - 1)] + [b]   # collinear, evenly spaced
+        elif x < 0.11 and n > 2:
+            pts[-1] = a                                     # closed curve: start == end
         return {"op": "new_seg", "id": sid, "kind": k, "pts": [zc(p) for p in pts]}
 
     def idx(self, r, n):
@@ -2002,7 +2022,7 @@ EXPECTED_PROBES = [
     "endpoint_assigned_where_segment_is_at_two_indices", "endpoint_assigned_on_arc", "closed_flag_path_created",
     "closed_flag_path_compared_equal_to_unflagged_path", "natural_RecursionError",
     "path_shares_segments_with_other_path", "path_retired_segment_edited_behind_its_back",
-    "path_cloned_with_its_caches",
+    "path_cloned_with_its_caches", "query_on_path_of_total_length_zero",
 ]
 
 
